@@ -50,7 +50,7 @@ def extra_obligations(index, tier):
     uses = [n for n in ast.walk(fi.node) if isinstance(n, ast.Name) and n.id == "codebase"]
     src = ast.unparse(fi.node)
     out.append(("find reads the code base only to pre-parse its files (set(codebase))",
-                len(uses) == 1 and "filenames = set(codebase)" in src, f"{len(uses)} uses (the parameter itself is an ast.arg)", "codebasin.finder:find"))
+                len(uses) == 1 and "filenames = set(codebase)" in src, f"{len(uses)} uses (the parameter itself is an ast.arg)", "codebasin.finder:find", "pattern"))
     for mod in ("codebasin.preprocessor", "codebasin.platform", "codebasin.file_parser", "codebasin.file_source"):
         names = {n.id for n in ast.walk(index.modules[mod]) if isinstance(n, ast.Name)} | \
                 {n.attr for n in ast.walk(index.modules[mod]) if isinstance(n, ast.Attribute)}
@@ -61,10 +61,10 @@ def extra_obligations(index, tier):
                       ("codebasin.tree:_tree", "CodeBase(rootdir, exclude_patterns=args.excludes)"),
                       ("codebasin.coverage.__main__:_compute", "CodeBase(source_dir, exclude_patterns=args.excludes)")):
         s = ast.unparse(index.func(key).node)
-        out.append((f"{key.split(':')[1]} builds the code base from the collected exclude list", call in s, "", key))
+        out.append((f"{key.split(':')[1]} builds the code base from the collected exclude list", call in s, "", key, "pattern"))
         if "_compute" not in key:
             out.append((f"{key.split(':')[1]} appends the analysis file's patterns to the -x patterns",
-                        "args.excludes += analysis_toml['codebase']['exclude']" in s, "", key))
+                        "args.excludes += analysis_toml['codebase']['exclude']" in s, "", key, "pattern"))
     out += [o for o in C08.extra_obligations(index, tier) if o[0].startswith("structure/")]
     out += [o for o in C09.extra_obligations(index, tier) if o[0].startswith("the exclude list")]
     return out
